@@ -75,10 +75,11 @@ impl Executor for StatefulExecutor {
             .config
             .total_timeout
             .unwrap_or(*DEFAULT_TOTAL_TIMEOUT);
+        // (a limit beyond what the clock can express is no limit)
         let timeout_at = if timeout_duration.is_zero() {
             None
         } else {
-            Some(Instant::now().add(timeout_duration))
+            Instant::now().checked_add(timeout_duration)
         };
         let timeout_left = || timeout_at.map(|at| at.duration_since(Instant::now()));
         let runner_gen = &self.0;
